@@ -3,7 +3,11 @@
 ** ledger / total-order / equality+hash / failed-operation oracles are added on the same
 ** state graph).
 **
-** Parameters: keys=int|str|probe  vals=int|probe  nkeys=N (<=16)  nvals=1|2
+** Parameters: keys=int|str|probe  vals=int|probe|blob  nkeys=N (<=16)  nvals=1|2
+**             (blob = plain 20-byte struct without any class instance; every byte of every
+**              binding is compared with the reference after every operation; key and value
+**              types of different sizes: int->probe 8/24, probe->int 24/8, str->probe 8/24,
+**              int->blob 8/20, probe->blob 24/20)
 **             prop=C03|C05|C09|C10|C12
 **             two=0|1   (second tree B: copy/assign/swap/del between A and B)
 **             mode=bfs|ladder|pairs   depth=N (0 = fixpoint)  memo=0|1
@@ -38,15 +42,20 @@ static int K;                   /* universe size */
 static int NV;                  /* number of distinct values (1 or 2) */
 static int two, propC05, propC09, propC10, propC12, pairs_mode, memo, alias_op;
 static var KT, VT;              /* key and value types */
-static int kkind, vkind;        /* 0 int, 1 str, 2 probe */
+static int kkind, vkind;        /* 0 int, 1 str, 2 probe, 3 blob (values only) */
 static var keyobj[MAXK];
 static var valobj[2];
+static var blobobj[MAXK][2];    /* blob values: one carrier per (key, value index), all 20 bytes depend on both */
 static var wrongkey, wrongval;
 static char skeys[MAXK][8];
 static int in_ladder;
 
 /* reference model: association lists for A and B */
-struct model { int exists; int present[MAXK]; int val[MAXK]; };
+#define BLOBSZ 20
+struct Blob { unsigned char b[BLOBSZ]; };
+var Blob = Cello(Blob);
+
+struct model { int exists; int present[MAXK]; int val[MAXK]; unsigned char bytes[MAXK][BLOBSZ]; };
 static struct model MA, MB;
 static int A_managed, B_managed;
 static int64_t led_base;
@@ -66,19 +75,20 @@ static int model_equal(struct model* a, struct model* b) {
 }
 
 static const char* kname(void) { return kkind == 0 ? "int" : kkind == 1 ? "str" : "probe"; }
+static const char* vname(void) { return vkind == 2 ? "probe" : vkind == 3 ? "blob" : "int"; }
 
 /* name the kind of operation in progress: it is the middle part of every site label, and
 ** (through vf.phase) of the label of a crash / hang / sanitizer report during or after it */
 static char phasebuf[96];
 static void kind(const char* k) {
   lastkind = k;
-  snprintf(phasebuf, sizeof phasebuf, "tree/%s-%s/%s", kkind == 0 ? "int" : kkind == 1 ? "str" : "probe", vkind == 2 ? "probe" : "int", k);
+  snprintf(phasebuf, sizeof phasebuf, "tree/%s-%s/%s", kkind == 0 ? "int" : kkind == 1 ? "str" : "probe", vkind == 2 ? "probe" : vkind == 3 ? "blob" : "int", k);
   vf.phase = phasebuf;
 }
 
 static char labelbuf[160];
 static const char* L(const char* oracle) {
-  snprintf(labelbuf, sizeof labelbuf, "tree/%s-%s/%s/%s", kname(), vkind == 2 ? "probe" : "int", lastkind, oracle);
+  snprintf(labelbuf, sizeof labelbuf, "tree/%s-%s/%s/%s", kname(), vname(), lastkind, oracle);
   return labelbuf;
 }
 
@@ -101,7 +111,27 @@ static int key_index(var k) {
   return (int)r;
 }
 
-static int64_t val_of(var v) { return c_int(v); }
+/* the 20 bytes a blob value for (key k, value index v) consists of: no two alike, no zero byte */
+static void blob_fill(unsigned char* b, int k, int v) {
+  for (int i = 0; i < BLOBSZ; i++) b[i] = (unsigned char)(1 + ((k * 37 + v * 101 + i * 11 + (i * i) % 7) % 251));
+}
+
+/* value index stored at v (for blob: only if all 20 bytes are those of (ki, index)), else -1 */
+static int64_t val_at(var v, int ki) {
+  if (vkind != 3) return c_int(v);
+  if (ki < 0) return -1;
+  for (int x = 0; x < 2; x++) { unsigned char b[BLOBSZ]; blob_fill(b, ki, x); if (memcmp(v, b, BLOBSZ) == 0) return x; }
+  return -1;
+}
+
+/* the object to pass as value argument for set(key k, value index v) */
+static var valarg(int k, int v) { return vkind == 3 ? blobobj[k][v] : valobj[v]; }
+
+/* reference side of a set */
+static void model_set(struct model* m, int k, int v) {
+  m->present[k] = 1; m->val[k] = v;
+  if (vkind == 3) memcpy(m->bytes[k], blobobj[k][v], BLOBSZ);
+}
 
 static var mk_tree(void) { return new_raw(Tree, KT, VT); }
 
@@ -111,7 +141,10 @@ static void make_carriers(void) {
   for (int i = 0; i < K; i++) {
     keyobj[i] = kkind == 0 ? (var)new_raw(Int, $I(i)) : kkind == 1 ? (var)new_raw(String, $S(skeys[i])) : (var)new_raw(Probe, $I(i));
   }
-  for (int v = 0; v < 2; v++) valobj[v] = vkind == 0 ? (var)new_raw(Int, $I(v)) : (var)new_raw(Probe, $I(v));
+  for (int v = 0; v < 2; v++) valobj[v] = vkind == 2 ? (var)new_raw(Probe, $I(v)) : (var)new_raw(Int, $I(v));
+  if (vkind == 3 && blobobj[0][0] == NULL) {
+    for (int i = 0; i < K; i++) for (int v = 0; v < 2; v++) { blobobj[i][v] = new_raw(Blob); blob_fill(((struct Blob*)blobobj[i][v])->b, i, v); }
+  }
   led_base = vf_led_live;
 }
 
@@ -150,7 +183,7 @@ static size_t canon_node(struct Tree* m, var node, char* buf, size_t cap, size_t
   if (node == NULL) { buf[o++] = '.'; return o; }
   if (depth > 48 || --*budget < 0) { buf[o++] = '!'; return o; }
   int ki = key_index(Tree_Key(m, node));
-  int64_t v = val_of(Tree_Val(m, node));
+  int64_t v = val_at(Tree_Val(m, node), ki);
   buf[o++] = ki < 0 ? '?' : "0123456789abcdefghijklmnopqrstuv"[ki];
   buf[o++] = Tree_Is_Red(m, node) ? 'r' : 'b';
   buf[o++] = (v >= 0 && v <= 9) ? (char)('0' + v) : '?';
@@ -231,6 +264,14 @@ static int audit(var t_, const char* who) {
   struct Tree* m = t_;
   struct aud a; memset(&a, 0, sizeof a);
   a.m = m; a.limit = m->nitems + 4;
+  /* every node embeds one key and one value: the slot sizes the tree allocates and copies
+  ** with must cover the types it says it holds (they differ in size in the mixed instances) */
+  if (m->ktype != KT || m->vtype != VT) { vf_violation(L("audit-types"), NULL, "%s: key/value type of the tree changed", who); return 1; }
+  if (m->ksize < size(KT) || m->vsize < size(VT)) {
+    vf_violation(L(m->ksize < size(KT) ? "audit-key-slot-too-small" : "audit-value-slot-too-small"), NULL,
+      "%s: the tree reserves %zu/%zu bytes per key/value, the types need %zu/%zu", who, m->ksize, m->vsize, size(KT), size(VT));
+    return 1;
+  }
   if (m->root == NULL) {
     if (m->nitems != 0) { vf_violation(L("audit-nitems"), NULL, "%s: no root but nitems=%zu", who, m->nitems); return 1; }
     return 0;
@@ -240,7 +281,6 @@ static int audit(var t_, const char* who) {
   if (bh < 0) { vf_violation(L(a.err), NULL, "%s: %s", who, a.msg); return 1; }
   if (a.count != m->nitems) { vf_violation(L("audit-nitems"), NULL, "%s: %zu nodes reachable, nitems=%zu", who, a.count, m->nitems); return 1; }
   if (!height_ok(a.maxh, a.count)) { vf_violation(L("audit-height"), NULL, "%s: height %d exceeds 2*log2(n+1) for n=%zu", who, a.maxh, a.count); return 1; }
-  if (m->ktype != KT || m->vtype != VT) { vf_violation(L("audit-types"), NULL, "%s: key/value type of the tree changed", who); return 1; }
   return 0;
 }
 
@@ -259,7 +299,8 @@ static int check_map(var t, struct model* m, const char* who) {
     e = VF_CATCH(got = get(t, keyobj[i]));
     if (m->present[i]) {
       if (e) { vf_violation(L("get-raises"), NULL, "%s: get(key#%d) raised %s for a present key", who, i, vf_exc_name(e)); return 1; }
-      if (val_of(got) != m->val[i]) { vf_violation(L("get-value"), NULL, "%s: get(key#%d)=%" PRId64 ", last set value is %d", who, i, val_of(got), m->val[i]); return 1; }
+      if (val_at(got, i) != m->val[i]) { vf_violation(L("get-value"), NULL, "%s: get(key#%d)=%" PRId64 ", last set value is %d", who, i, val_at(got, i), m->val[i]); return 1; }
+      if (vkind == 3 && memcmp(got, m->bytes[i], BLOBSZ) != 0) { vf_violation(L("get-value-bytes"), NULL, "%s: the %d bytes of get(key#%d) differ from the bytes last stored", who, BLOBSZ, i); return 1; }
       if (type_of(got) != VT) { vf_violation(L("get-type"), NULL, "%s: get(key#%d) is not of the value type", who, i); return 1; }
     } else {
       if (e != KeyError) { vf_violation(L("get-absent"), NULL, "%s: get(key#%d) of an absent key gave %s, KeyError expected", who, i, vf_exc_name(e)); return 1; }
@@ -280,7 +321,7 @@ static int check_map(var t, struct model* m, const char* who) {
       else if (d != dir) { vf_violation(L("iter-not-monotone"), NULL, "%s: forward iteration is not strictly monotone: key#%d after key#%d", who, ki, fwd[nf - 1]); return 1; }
     }
     if (type_of(it) != KT) { vf_violation(L("iter-type"), NULL, "%s: iterated key is not of the key type", who); return 1; }
-    if (val_of(get(t, it)) != m->val[ki]) { vf_violation(L("iter-get"), NULL, "%s: get(iterated key#%d) disagrees with the reference", who, ki); return 1; }
+    if (val_at(get(t, it), ki) != m->val[ki]) { vf_violation(L("iter-get"), NULL, "%s: get(iterated key#%d) disagrees with the reference", who, ki); return 1; }
     fwd[nf++] = ki;
     it = iter_next(t, it);
   }
@@ -373,7 +414,7 @@ static int check_eqhash(void) {
   if (bad) return 1;
   /* assign into a non-empty tree */
   R[2] = mk_tree();
-  set(R[2], keyobj[K - 1], valobj[NV - 1]); set(R[2], keyobj[K / 2], valobj[0]);
+  set(R[2], keyobj[K - 1], valarg(K - 1, NV - 1)); set(R[2], keyobj[K / 2], valarg(K / 2, 0));
   assign(R[2], TA);
   bad = same_as(R[2], h, "assign", ak);
   del_raw(R[2]); R[2] = NULL;
@@ -384,9 +425,9 @@ static int check_eqhash(void) {
     for (int j = 0; j < K; j++) {
       int i = ord == 0 ? j : ((j & 1) ? K / 2 - 1 - j / 2 : K / 2 + j / 2);   /* ascending / middle-out */
       if (ord == 1 && (i < 0 || i >= K)) continue;
-      if (MA.present[i]) set(R[2], keyobj[i], valobj[MA.val[i]]);
+      if (MA.present[i]) set(R[2], keyobj[i], valarg(i, MA.val[i]));
     }
-    if (ord == 1) for (int i = 0; i < K; i++) if (MA.present[i] && !mem(R[2], keyobj[i])) set(R[2], keyobj[i], valobj[MA.val[i]]);
+    if (ord == 1) for (int i = 0; i < K; i++) if (MA.present[i] && !mem(R[2], keyobj[i])) set(R[2], keyobj[i], valarg(i, MA.val[i]));
     bad = same_as(R[2], h, ord == 0 ? "rebuild-ascending" : "rebuild-middle-out", ak);
     del_raw(R[2]); R[2] = NULL;
   }
@@ -501,9 +542,9 @@ static int apply_inner(int op) {
   if (op < NV * K) {
     int k = op / NV, v = op % NV;
     kind(MA.present[k] ? "set-existing" : "set-new");
-    e = VF_CATCH(set(TA, keyobj[k], valobj[v]));
+    e = VF_CATCH(set(TA, keyobj[k], valarg(k, v)));
     if (e) { vf_violation(L("raises"), NULL, "set raised %s", vf_exc_name(e)); return VF_BAD; }
-    MA.present[k] = 1; MA.val[k] = v;
+    model_set(&MA, k, v);
     return VF_OK;
   }
   if (op < NV * K + K) {
@@ -542,7 +583,7 @@ static int apply_inner(int op) {
   case OP_ASSIGN_EMPTY: case OP_ASSIGN_FULL: {
     kind(m == OP_ASSIGN_EMPTY ? "assign-into-empty" : "assign-into-nonempty");
     R[2] = mk_tree();
-    if (m == OP_ASSIGN_FULL) { set(R[2], keyobj[0], valobj[vb]); set(R[2], keyobj[K - 1], valobj[vb]); if (K > 2) set(R[2], keyobj[K / 2], valobj[0]); }
+    if (m == OP_ASSIGN_FULL) { set(R[2], keyobj[0], valarg(0, vb)); set(R[2], keyobj[K - 1], valarg(K - 1, vb)); if (K > 2) set(R[2], keyobj[K / 2], valarg(K / 2, 0)); }
     e = VF_CATCH(assign(R[2], TA));
     if (e) { vf_violation(L("raises"), NULL, "assign raised %s", vf_exc_name(e)); del_raw(R[2]); R[2] = NULL; return VF_BAD; }
     del_tree(TA, A_managed); TA = R[2]; R[2] = NULL; A_managed = 0;
@@ -552,7 +593,7 @@ static int apply_inner(int op) {
     kind("new-with-bindings");
     var items[2 * MAXK + 3]; int n = 0;
     items[n++] = KT; items[n++] = VT;
-    for (int i = 0; i < K; i++) if (MA.present[i]) { items[n++] = keyobj[i]; items[n++] = valobj[MA.val[i]]; }
+    for (int i = 0; i < K; i++) if (MA.present[i]) { items[n++] = keyobj[i]; items[n++] = valarg(i, MA.val[i]); }
     items[n] = Terminal;
     e = VF_CATCH(R[2] = new_raw_with(Tree, $(Tuple, items)));
     if (e) { vf_violation(L("raises"), NULL, "new(Tree, K, V, ...) raised %s", vf_exc_name(e)); return VF_BAD; }
@@ -566,9 +607,9 @@ static int apply_inner(int op) {
     if (k < 0 || !MA.present[k]) return VF_SKIP;   /* the state oracle reports a wrong first key */
     int v = (MA.val[k] + 1) % NV;
     kind("set-existing-by-stored-key");
-    e = VF_CATCH(set(TA, it, valobj[v]));
+    e = VF_CATCH(set(TA, it, valarg(k, v)));
     if (e) { vf_violation(L("raises"), NULL, "set raised %s", vf_exc_name(e)); return VF_BAD; }
-    MA.val[k] = v;
+    model_set(&MA, k, v);
     return VF_OK; }
   case OP_B_COPY:
     if (!two) return VF_SKIP;
@@ -602,9 +643,9 @@ static int apply_inner(int op) {
   case OP_B_SET:
     if (!two || !TB) return VF_SKIP;
     kind("set(B)");
-    e = VF_CATCH(set(TB, keyobj[0], valobj[vb]));
+    e = VF_CATCH(set(TB, keyobj[0], valarg(0, vb)));
     if (e) { vf_violation(L("raises"), NULL, "set raised %s", vf_exc_name(e)); return VF_BAD; }
-    MB.present[0] = 1; MB.val[0] = vb;
+    model_set(&MB, 0, vb);
     return VF_OK;
   case OP_B_REM:
     if (!two || !TB || !MB.present[0]) return VF_SKIP;
@@ -632,7 +673,7 @@ static int apply_inner(int op) {
     return expect_fail(e, ValueError, TypeError, TypeError, "get with a key of the wrong type", before, lb);
   case OP_F_SET_WRONGKEY:
     kind("set-wrong-type-key");
-    e = VF_CATCH(set(TA, wrongkey, valobj[0]));
+    e = VF_CATCH(set(TA, wrongkey, valarg(0, 0)));
     return expect_fail(e, ValueError, TypeError, TypeError, "set with a key of the wrong type", before, lb);
   case OP_F_SET_WRONGVAL:
     kind("set-wrong-type-val");
@@ -652,7 +693,7 @@ static int apply_inner(int op) {
     return expect_fail(e, ValueError, ValueError, ValueError, "get(NULL)", before, lb);
   case OP_F_SET_NULLKEY:
     kind("set-null-key");
-    e = VF_CATCH(set(TA, NULL, valobj[0]));
+    e = VF_CATCH(set(TA, NULL, valarg(0, 0)));
     return expect_fail(e, ValueError, ValueError, ValueError, "set with a NULL key", before, lb);
   case OP_F_SET_NULLVAL:
     kind("set-null-val");
@@ -719,7 +760,7 @@ static void collect_current(void) {
   var it = iter_init(TA);
   while (it != Terminal && p->n < MAXK) {
     p->seq[p->n][0] = key_index(it);
-    p->seq[p->n][1] = (int)val_of(get(TA, it));
+    p->seq[p->n][1] = (int)val_at(get(TA, it), p->seq[p->n][0]);
     p->n++;
     it = iter_next(TA, it);
   }
@@ -1038,7 +1079,7 @@ int main(int argc, char** argv) {
 
   const char* ks = vf_param("keys", "int"), *vs = vf_param("vals", "int");
   kkind = strcmp(ks, "str") == 0 ? 1 : strcmp(ks, "probe") == 0 ? 2 : 0;
-  vkind = strcmp(vs, "probe") == 0 ? 2 : 0;
+  vkind = strcmp(vs, "probe") == 0 ? 2 : strcmp(vs, "blob") == 0 ? 3 : 0;
   K = (int)vf_param_i("nkeys", 6);
   if (K > MAXK) K = MAXK;
   if (K < 1) K = 1;
@@ -1057,7 +1098,7 @@ int main(int argc, char** argv) {
   vf_led_reset();
 
   KT = kkind == 0 ? Int : kkind == 1 ? String : Probe;
-  VT = vkind == 0 ? Int : Probe;
+  VT = vkind == 2 ? Probe : vkind == 3 ? Blob : Int;
 
   if (vf_param_is("mode", "ladder", "bfs")) {
     if (kkind == 2) { kkind = 0; KT = Int; }
@@ -1076,7 +1117,7 @@ int main(int argc, char** argv) {
   struct vf_domain d = { "tree", nops_total(), reset, cleanup, apply, check, canon, opname, nontrivial,
                          (size_t)vf_param_i("depth", 0), (size_t)vf_param_i("max_states", 0) };
   static char dname[80];
-  snprintf(dname, sizeof dname, "tree[%s->%s,%dkeys,%dvals%s,%s]", kname(), vkind == 2 ? "probe" : "int", K, NV, two ? ",two" : "", prop);
+  snprintf(dname, sizeof dname, "tree[%s->%s,%dkeys,%dvals%s,%s]", kname(), vname(), K, NV, two ? ",two" : "", prop);
   d.name = dname;
 
   if (vf.replay && strncmp(vf.replay, "pair", 4) == 0) pairs_replay(vf.replay);
